@@ -245,9 +245,12 @@ def main():
 
 
 if __name__ == "__main__":
-    try:
-        from extract_more import register  # optional further generators
-        register(EXTRA, sys.modules[__name__])
-    except ImportError:
-        pass
+    import glob
+    import importlib.util
+    here = os.path.dirname(os.path.abspath(__file__))
+    for path in sorted(glob.glob(os.path.join(here, "extract_*.py"))):
+        spec = importlib.util.spec_from_file_location(os.path.basename(path)[:-3], path)
+        m = importlib.util.module_from_spec(spec)
+        spec.loader.exec_module(m)
+        m.register(EXTRA, sys.modules[__name__])
     sys.exit(main())
